@@ -167,7 +167,7 @@ def run(ctx):
         raise core.Machinery('programs quantifier incomplete')
     ctx.evaluations += len(cases); ctx.nontrivial += len(cases); ctx.exhaustive = True
     ctx.sample({k: cases[3][k] for k in ('entry', 'rep', 'raised', 'struct_equal', 'maxdev', 'out_has_units')})
-    bad = [json.loads(json.dumps(c)) for c in cases if ver[c['id']]['ok'] and not c['raised']][:3]
+    bad = [core.jcopy(c) for c in cases if ver[c['id']]['ok'] and not c['raised']][:3]
     for k, c in enumerate(bad):
         c['id'] = 10**9 + k; c['maxdev'] = 5000
     vb = core.validate_batch(ctx, 'Repr', bad, 'SelfTest:Repr', shards=1)
